@@ -310,6 +310,33 @@ def digit_table(text):
     return [[k, v] for k, v in sorted(t.items())]
 
 
+def jsonable(v):
+    """replay files: bytes and tuples survive the JSON round trip"""
+    if isinstance(v, (bytes, bytearray)):
+        return {'__bytes__': bytes(v).hex()}
+    if isinstance(v, tuple):
+        return {'__tuple__': [jsonable(x) for x in v]}
+    if isinstance(v, list):
+        return [jsonable(x) for x in v]
+    if isinstance(v, dict):
+        return {str(k): jsonable(x) for k, x in v.items()}
+    if isinstance(v, (str, int, float, bool)) or v is None:
+        return v
+    return repr(v)
+
+
+def unjsonable(v):
+    if isinstance(v, list):
+        return [unjsonable(x) for x in v]
+    if isinstance(v, dict):
+        if set(v) == {'__bytes__'}:
+            return bytes.fromhex(v['__bytes__'])
+        if set(v) == {'__tuple__'}:
+            return tuple(unjsonable(x) for x in v['__tuple__'])
+        return {k: unjsonable(x) for k, x in v.items()}
+    return v
+
+
 # ---------------------------------------------------------------- known findings
 
 def known_findings():
@@ -404,7 +431,7 @@ class Ctx:
             seen.add(sha)
             path = os.path.join('replays', '%s-%s.json' % (self.prop, sha))
             with open(os.path.join(ROOT, path), 'w') as f:
-                json.dump({'property': self.prop, 'seed': self.seed, 'tier': self.tier, **v}, f,
+                json.dump(jsonable({'property': self.prop, 'seed': self.seed, 'tier': self.tier, **v}), f,
                           indent=1, default=str)
                 f.write('\n')
             print('VIOLATION property=%s replay=%s%s' % (
